@@ -427,6 +427,36 @@ def comment_glue_items(tier):
     return items
 
 
+def stmwrap_items(tier):
+    """the statement wrapper `_stmwrap` (every emitted ydot / Jacobian / rate statement goes through it) only inserts line breaks
+    between blank-separated chunks: (a) its call of textwrap.wrap keeps long words whole (break_long_words=False; ASSUMED contract of
+    textwrap.wrap under that option: the chunks joined by blanks have the same blank-separated word sequence as the input), the only
+    other rewriting is the re-indentation of a closing brace; (b) bounded: on statements with words longer than the line the word
+    sequence is preserved for every width / indent the templates use."""
+    import ast, inspect, textwrap
+    from naunet import utilities
+    items = []
+    src = textwrap.dedent(inspect.getsource(utilities._stmwrap))
+    fn = ast.parse(src).body[0]
+    calls = [n for n in ast.walk(fn) if isinstance(n, ast.Call) and ((isinstance(n.func, ast.Name) and n.func.id in ("wrap", "fill")) or (isinstance(n.func, ast.Attribute) and n.func.attr in ("wrap", "fill")))]
+    kw = {k.arg: k.value for c in calls for k in c.keywords}
+    ok = len(calls) == 1 and isinstance(kw.get("break_long_words"), ast.Constant) and kw["break_long_words"].value is False and \
+        not any(k in kw for k in ("max_lines", "placeholder", "drop_whitespace", "replace_whitespace", "expand_tabs", "tabsize", "fix_sentence_endings"))
+    items.append(item("stmwrap/long-words-are-kept-whole", ok, f"{[ast.unparse(c) for c in calls]}"))
+    repl = [n for n in ast.walk(fn) if isinstance(n, ast.Call) and isinstance(n.func, ast.Attribute) and n.func.attr in ("replace", "sub", "translate", "strip", "lstrip", "rstrip")]
+    items.append(item("stmwrap/only-rewriting-is-the-closing-brace-indent", len(repl) == 1 and "}" in ast.unparse(repl[0]), f"{[ast.unparse(r) for r in repl]}"))
+    bad = []
+    long_ = "k[12]*y[IDX_CH3CH2CH2CH2CH2CH2CH2OHI]*y[IDX_HCCCCCCCCCCCCCCCCCNII]*y[IDX_GCH3CH2CH2CH2CH2CH2OHI]"
+    for text in [f"ydot[IDX_HI] = 0.0 - {long_} + {long_}*zeta - 2.0*k[3]*y[IDX_HI]*y[IDX_HI];", f"if (Tgas>=10.0 && Tgas<41000.0) {{ k[0] = {long_}; }}",
+                 "data[3] = " + " + ".join([long_] * 3) + ";"]:
+        for width, indent in [(80, 4), (80, 8), (80, 12), (80, 17), (60, 4)]:
+            out = utilities._stmwrap(text, width, indent)
+            if out.split() != text.split():
+                bad.append(f"width {width} indent {indent}: {[w for w in out.split() if w not in text.split()][:2]}")
+    items.append(item("stmwrap/word-sequence-preserved-on-long-statements", not bad, "; ".join(bad)[:300], backend="bounded-native"))
+    return items
+
+
 def constants_template_items(tier):
     """C11: the per-species binding-energy constant is emitted for every surface species of the network, once, as the species' own
     value written by str(float) (the shortest text that reads back as the same double) - no formatting filter in between"""
